@@ -466,7 +466,7 @@ impl<'s> Gen<'s> {
                         max_len_s: 64,
                         max_len_f: 600,
                         shape_ok: &any_shape,
-                        nts: &[1, 2, 2, 3, 3, 4, 5, 6, 7, 8, 16],
+                        nts: &[1, 2, 2, 3, 3, 4, 5, 6, 7, 8, 9, 10, 11, 12, 13, 14, 15, 16],
                         force_exact: false,
                         growth_one_in: 8,
                         strategies: &[Strategy::SpawnerFirst, Strategy::SpawnerStarved, Strategy::Uniform, Strategy::Pct, Strategy::NewestFirst, Strategy::RoundRobin],
@@ -554,6 +554,24 @@ impl<'s> Gen<'s> {
                     // first() matches the first survivor: let the chain drop a prefix
                     if let Some(st) = c.stages.iter_mut().find(|s| matches!(s.kind, Kind::Filter | Kind::FilterMapO | Kind::FilterMapR)) {
                         st.keep = Keep::Suffix(m as u64);
+                    }
+                }
+                // Min/Auto chunk growth: late workers (spawned after a lag period) hold grown chunks when the match
+                // is found; long known-length input, so that "proportional to what remains" is far above the bound
+                if c.mode == Mode::S && !self.small && !endless && r.chance(1, 3) && c.src.known_len() && c.src != Src::Array {
+                    c.nt = r.pick(&[6usize, 8, 16]);
+                    c.cs = if r.chance(1, 2) { Cs::Min(r.range(1, 4)) } else { Cs::Auto };
+                    c.strategy = Strategy::LagGrow;
+                    c.len = r.range(800, 2500);
+                    let mm = r.range(40, 300) as u64;
+                    c.pred = match c.term {
+                        Term::All => Keep::Prefix(mm),
+                        _ => Keep::Origins(vec![mm, mm + 500]),
+                    };
+                    if matches!(c.term, Term::First | Term::FirstIdx) {
+                        if let Some(st) = c.stages.iter_mut().find(|s| matches!(s.kind, Kind::Filter | Kind::FilterMapO | Kind::FilterMapR)) {
+                            st.keep = Keep::Suffix(mm);
+                        }
                     }
                 }
                 if endless && c.src.is_probe() {
